@@ -247,6 +247,20 @@ def main():
     d = child(lambda q, i: q(ST + 3 - i), False)
     cases.append(dict(op="End", builder=BHT, op_row=40, chip_row=20, chip=opbits("Dyn"), next_consts=opbits("End"),
                       what="block hash table: the entry DYN added for the callee taken from the stack", **d))
+    # op group table p3 (batches with two groups: one entry): SPAN / RESPAN add (a', group_count - 1, h1); the entry is removed
+    # on the row where the group counter drops inside the span - by the immediate value of a PUSH (value = s0') or by the
+    # start of the next group (value = h0' * 2^7 + opcode of the next operation)
+    OGT = "decoder/aux_trace/op_group_table.rs"
+    IN_SPAN, GC, BF = DEC + 16, DEC + 17, DEC + 19
+    two_groups = {BF: 0, BF + 1: 0, BF + 2: 1}
+    mul_code = meta.ops["Mul"]["opcode"]
+    for starter in ("Span", "Respan"):
+        cases.append(dict(op="Push", builder=OGT, op_row=40, chip_row=20, chip={**opbits(starter), **two_groups}, cur_consts={IN_SPAN: 1},
+                          what=f"op group table: the entry {starter.upper()} added, removed as the immediate of a PUSH",
+                          rel4=lambda cur, nxt, q, r: [(cur(ADDR), r(ADDR)), (cur(GC), q(GC) - 1), (nxt(GC), cur(GC) - 1), (q(H(1)), nxt(ST))]))
+        cases.append(dict(op="Add", builder=OGT, op_row=40, chip_row=20, chip={**opbits(starter), **two_groups}, cur_consts={IN_SPAN: 1}, next_consts=opbits("Mul"),
+                          what=f"op group table: the entry {starter.upper()} added, removed when the next group starts",
+                          rel4=lambda cur, nxt, q, r: [(cur(ADDR), r(ADDR)), (cur(GC), q(GC) - 1), (nxt(GC), cur(GC) - 1), (q(H(1)), nxt(H(0)).scale(128) + mul_code)]))
     for case in cases:
         opcode = meta.ops[case["op"]]["opcode"]
         op_consts = {int(k): v for k, v in meta.opcode_consts(opcode).items()}
@@ -259,6 +273,7 @@ def main():
             V.add(tag, "inconclusive", detail=str(e)[:300])
             continue
         cov["paths"] += len(paths)
+        live = 0
         for pi, res in enumerate(paths):
             if res.outcome != "ok":
                 V.add(f"{tag}#p{pi}", "inconclusive", detail=str(res.value)[:200])
@@ -293,8 +308,8 @@ def main():
             sv.set("timeout", 60000)
             sv.add(s.assertions())
             if sv.check() == z3.unsat:
-                V.add(f"{tag}#p{pi}: matching relation is satisfiable (vacuity guard)", "inconclusive", detail="the matching relation contradicts the path")
-                continue
+                continue  # this path is excluded by the matching relation (e.g. the branch in which nothing is removed)
+            live += 1
             s.add(z3.Not(goal))
             r = s.check()
             cov["queries"] += 1
@@ -306,6 +321,8 @@ def main():
                 confirm(V, name, path, case["op"])
             else:
                 V.add(name, "inconclusive", detail="solver unknown")
+        if not live:
+            V.add(f"{tag}: some path is compatible with the matching relation (vacuity guard)", "inconclusive", detail="every path contradicts the relation")
     c_ = V.counts()
     coverage = dict(
         states=max(1, cov["paths"]), transitions=c_.get("discharged", 0), traces_validated_against_impl=cov.get("native", 0),
@@ -344,7 +361,7 @@ BUS_PROGRAMS_MORE = {
 def confirm(V, name, path, op):
     """native: a program using the operation; the chiplets bus column must return to 1 at the end of the real trace"""
     import masmsym
-    if op in ("End", "Respan"):
+    if op in ("End", "Respan", "Push", "Add"):
         return confirm_tables(V, name, path)
     progs = [BUS_PROGRAMS[op]] + BUS_PROGRAMS_MORE.get(op, [])
     progs = [(p_, []) if isinstance(p_, str) else p_ for p_ in progs]
@@ -368,7 +385,7 @@ def confirm_tables(V, name, path):
     nats = masmsym.native([{"kind": "trace_check", "source": src, "stack": [], "advice": [], "aux": True} for src in TABLE_PROGRAMS], "c12t")
     for src, nat in zip(TABLE_PROGRAMS, nats):
         fin = nat.get("aux_final") or []
-        bad = [i for i in (0, 1, 2, 5, 6) if i < len(fin) and fin[i] != "1"]
+        bad = [i for i in (0, 1, 2, 5, 6) if i < len(fin) and fin[i] != "1"]  # decoder p1, p2, p3; chiplets table; chiplets bus
         if nat.get("status") == "ok" and bad:
             V.violation(name, path, f"{name}; native trace of `{src}`: auxiliary column(s) {bad} end at {[fin[i] for i in bad]} instead of 1", key="tables:" + name.split(":")[1][:12])
             return
